@@ -11,6 +11,7 @@ import (
 	"go/token"
 	"go/types"
 	"math/big"
+	"os"
 	"sort"
 	"strings"
 
@@ -249,6 +250,8 @@ type Sink struct {
 	OK    bool
 	Mixed bool
 	Src   string
+	AV    AV
+	In    ssa.Instruction
 }
 
 func (s *Sink) Key() string { return fmt.Sprintf("%s#%s%d", core.FnName(s.Fn), s.Kind, s.Ord) }
@@ -437,6 +440,27 @@ func (t *TLG) analyze(fn *ssa.Function) {
 			if !inWork[succ] {
 				inWork[succ] = true
 				work = append(work, succ)
+			}
+		}
+	}
+	if t.collect && os.Getenv("GMCHECK_TLG_DEBUG") == core.FnName(fn) {
+		for _, b := range fn.Blocks {
+			fmt.Printf("-- block %d (%s) preds=%v\n", b.Index, b.Comment, b.Preds)
+			st := a.in[b]
+			var ks []string
+			for k := range st {
+				ks = append(ks, k)
+			}
+			sort.Strings(ks)
+			for _, k := range ks {
+				fmt.Printf("     %s = %s\n", k, st[k])
+			}
+			for _, in := range b.Instrs {
+				if v, ok := in.(ssa.Value); ok {
+					fmt.Printf("   %s = %s\n", v.Name(), in)
+				} else {
+					fmt.Printf("   %s\n", in)
+				}
 			}
 		}
 	}
@@ -1245,6 +1269,13 @@ func (a *fnAn) assignConv(st tstate, x ssa.Value, to types.Type, av AV, b *ssa.B
 // ------------------------------------------------------------------- transfer
 
 func (a *fnAn) instr(in ssa.Instruction, st tstate, collect bool) {
+	// a new dynamic instance of the value is created: refinements recorded for
+	// an earlier instance (previous loop iteration) no longer apply
+	if v, ok := in.(ssa.Value); ok {
+		if _, isPhi := in.(*ssa.Phi); !isPhi {
+			delete(st, "V:"+v.Name())
+		}
+	}
 	switch x := in.(type) {
 	case *ssa.UnOp:
 		if x.Op == token.MUL && isIntegerType(x.Type(), a.sizes) {
@@ -1667,7 +1698,7 @@ func (a *fnAn) addSinkAt(in ssa.Instruction, pos token.Pos, kind string, av AV, 
 		return
 	}
 	a.ords[kind]++
-	s := &Sink{Fn: a.fn, Kind: kind, Ord: a.ords[kind], Pos: pos, Want: want, Got: got, OK: ok, Mixed: av.Mixed, Src: av.Src}
+	s := &Sink{Fn: a.fn, Kind: kind, Ord: a.ords[kind], Pos: pos, Want: want, Got: got, OK: ok, Mixed: av.Mixed, Src: av.Src, AV: av, In: in}
 	if !s.Pos.IsValid() {
 		s.Pos = a.fn.Pos()
 	}
